@@ -3,7 +3,6 @@ package main
 import (
 	"fmt"
 	"os"
-	"strings"
 
 	"verif/sim/core"
 	"verif/sim/props/c07"
@@ -16,8 +15,7 @@ func main() {
 		panic(err)
 	}
 	c, _ := p.Decode(rp.Case)
+	c07.Debug = true
 	o := p.Run(c, nil)
-	fmt.Println(o.Trouble, o.Violation)
-	s := fmt.Sprint(o.Sample)
-	fmt.Println(len(s), strings.Count(fmt.Sprint(o.Counters), "valuepool"), o.Counters)
+	fmt.Println(o.Trouble, o.Violation, o.Counters)
 }
